@@ -196,3 +196,36 @@ def fixture_verdict(rule, name, fired_on):
     """fixtures: functions named bad_<rule>_* must be reported, good_<rule>_* must not.  `fired_on`: set of function names the
     rule fired on among fixture functions; all: all fixture function names relevant to this rule."""
     pass
+
+
+def canon_text(e, a, depth=0):
+    """text of an expression in which the names of locals and parameters of function `a` are replaced by what they stand for - a parameter by its position ($0, $1 ...),
+    a local by its initialiser (three levels deep) - so that tables of reviewed sites do not depend on how a variable is called"""
+    import copy
+    params = {p['id']: i for i, p in enumerate(a.get('params', [])) if 'id' in p}
+    inits = getattr(canon_text, '_cache', {}).get(id(a))
+    if inits is None:
+        inits = {}
+        for x in walk(a['body']):
+            if x.get('k') == 'Decl':
+                for v in x.get('vars', []):
+                    inits[v['id']] = v.get('init')
+        canon_text._cache = {id(a): inits}
+
+    def sub(x, d):
+        if isinstance(x, list):
+            return [sub(y, d) for y in x]
+        if not isinstance(x, dict):
+            return x
+        if x.get('k') == 'Ref' and x.get('d') == 'param' and x.get('id') in params:
+            y = dict(x); y['n'] = '$%d' % params[x['id']]; return y
+        if x.get('k') == 'Ref' and x.get('d') == 'local' and x.get('id') in inits:
+            ini = inits[x['id']]
+            y = dict(x)
+            if ini is not None and d < 3:
+                y['n'] = '<%s>' % pp(sub(strip_casts(ini), d + 1))[:80]
+            else:
+                y['n'] = '<local>'
+            return y
+        return {k: (sub(v, d) if isinstance(v, (dict, list)) else v) for k, v in x.items()}
+    return pp(sub(strip_casts(e), depth))
